@@ -615,8 +615,22 @@ def run_check(prop, tier='quick', seed=0, replay=None):
         'wall_s': round(time.time() - t0, 2),
         'violations': len(violations),
     }
-    os.makedirs(os.path.join(VERIF, 'evidence'), exist_ok=True)
-    with open(os.path.join(VERIF, 'evidence', prop.id + '.json'), 'w') as f:
+    foreign = os.path.realpath(REPO) != os.path.realpath('/repo')
+    if foreign:
+        # a run against a scratch copy (seeded-change experiments): its record must never replace the evidence of
+        # /repo itself, and the extracted kernels are put back to what /repo says
+        ev['repo'] = REPO
+        ev_path = os.path.join(VERIF, 'replays', 'evidence-%s-scratch-repo.json' % prop.id)
+        if prop.extracted:
+            try:
+                import extract
+                extract.generate(prop.id, '/repo')
+            except Exception:  # pylint: disable=broad-except
+                pass
+    else:
+        ev_path = os.path.join(VERIF, 'evidence', prop.id + '.json')
+    os.makedirs(os.path.dirname(ev_path), exist_ok=True)
+    with open(ev_path, 'w') as f:
         json.dump(ev, f, indent=1, default=repr)
         f.write('\n')
     print('%s tier=%s seed=%s obligations=%d discharged=%d cases=%d nontrivial=%d wall=%.1fs extraction=%s' % (
